@@ -33,7 +33,11 @@ static Section* by_order_tab[kMaxSections + 1];
 static inline Section** by_id() { return by_id_tab; }
 static inline Section** by_order() { return by_order_tab; }
 #endif
-static uint8_t sbuf[kMaxSections][kBufCap];
+// One byte array per section buffer (not a 2-D array: CBMC models a memset/memcpy with a symbolic length exactly only when the
+// destination object itself is an array of bytes).
+static uint8_t sbuf0[kBufCap], sbuf1[kBufCap], sbuf2[kBufCap], sbuf3[kBufCap];
+struct SectionBuffers { inline uint8_t* operator[](uint32_t i) const { return i == 0 ? sbuf0 : i == 1 ? sbuf1 : i == 2 ? sbuf2 : sbuf3; } };
+static const SectionBuffers sbuf{};   // sbuf[i] is the buffer of section i, sbuf[i][j] byte j of it
 static LabelEntry label_tab[kMaxLabels + 1];
 static RelocEntry* reloc_tab[kMaxRelocs + 1];
 static RelocEntry reloc_mem[kMaxRelocs];
@@ -58,7 +62,7 @@ static inline CodeHolder* make_holder(Arch arch, uint32_t n) {
 #if !defined(VERIF_CBMC)
   // Native twins run many streams in one process. Under CBMC every object below is still in its zero-initialised static
   // state when the (single) harness call starts, and a memset over typed objects would cost the solver a byte-level model.
-  memset(&code_mem, 0, sizeof(code_mem)); memset(sect_mem, 0, sizeof(sect_mem)); memset(sbuf, 0, sizeof(sbuf));
+  memset(&code_mem, 0, sizeof(code_mem)); memset(sect_mem, 0, sizeof(sect_mem)); memset(sbuf0, 0, kBufCap); memset(sbuf1, 0, kBufCap); memset(sbuf2, 0, kBufCap); memset(sbuf3, 0, kBufCap);
   memset(label_tab, 0, sizeof(label_tab)); memset(reloc_mem, 0, sizeof(reloc_mem));
 #endif
   c->_environment.init(arch);
@@ -110,6 +114,10 @@ static inline RelocEntry* add_reloc(RelocType type) {
   reloc_tab[id] = re; c->_relocations._size = id + 1;
   return re;
 }
+
+// Re-state a value that the solver can prove but the symbolic executor cannot see (it merges the paths of the call that produced it):
+// the equality is a proof obligation, the assignment of the constant is then a no-op that makes loops / switches over it concrete.
+#define V_CONCRETIZE(lvalue, constant, msg) do { V_ASSERT((lvalue) == (constant), msg); (lvalue) = (constant); } while (0)
 
 static inline uint64_t load_le(const uint8_t* p, uint32_t n) { uint64_t v = 0; for (uint32_t i = 0; i < n; i++) v |= uint64_t(p[i]) << (8 * i); return v; }
 static inline int64_t sext(uint64_t v, uint32_t bits) { return bits >= 64 ? int64_t(v) : int64_t(v << (64 - bits)) >> (64 - bits); }
